@@ -3,10 +3,89 @@
 package tsidtracker
 
 // C09 (a selector returns exactly the series whose labels satisfy all
-// matchers): see /verif/bounded/tsid/bulkadd_test.go.  BOUNDED stand-in, never
-// counted as proved: the functions iterate Go maps and the contract language
-// has no "every key was visited" rule for map ranges.  Comment-only file.
+// matchers): AllMatchedTSIDs.BulkAdd / BulkAddTagsOnly fold the series matched by
+// one label matcher into the running selection.  Both are proved for every
+// size of selection and matcher result with the visited-set rule for ranges
+// over Go maps (this replaced an earlier bounded stand-in).  Comment-only file.
+// A LATER matcher
+// (tr.first == false) only shrinks the selection, and every series that stays
+// selected is matched by some tag value of this matcher -- so a matcher that
+// matched nothing empties the selection.  Uses the visited-set rule for ranges
+// over maps (an exhausted range has produced every present key).  matchedBy is
+// "some tag value of this matcher lists the series".
+//@ spec matchedBy(raw map[string]map[uint64]struct{}, x uint64) bool = existskey(v, string, haskey(raw, v) && haskey(raw[v], x))
+// first matcher: for every series it adds, the ghost sequence bulkWit records
+// the tag value under which the matcher listed it (a witness for matchedBy)
+//@ ghostdecl bulkWit string
+//@ spec matchedVia(raw map[string]map[uint64]struct{}, x uint64, w string) bool = haskey(raw, w) && haskey(raw[w], x)
 //@ func (*AllMatchedTSIDs).BulkAdd
 //@   props C09
-//@   bounded tsid/bulkadd_test.go Test_Bounded_BulkAdd tsids 1..3, every current selection (8), every matcher result with <=2 tag values over those tsids incl. the empty map (73), first in {true,false}, BulkAdd and BulkAddTagsOnly (2336 inputs): selection == old ∩ matched (later matcher) / old ∪ matched (first)
+//@   requires tr != nil
+//@   loop 1:
+//@     invariant [frame] tr.allTSIDs == old(tr.allTSIDs) && tr.first == old(tr.first)
+//@     invariant [old-selection-kept] forallkey(x, uint64, implies(old(haskey(tr.allTSIDs, x)), haskey(tr.allTSIDs, x)))
+//@     invariant [added-are-matched] forallkey(x, uint64, implies(haskey(tr.allTSIDs, x), old(haskey(tr.allTSIDs, x)) || matchedVia(rawTagValueToTSIDs, x, ghostat(0, x, "bulkWit"))))
+//@     invariant [visited-values-fully-added] forallkey(v, string, implies(visited(1, v) && haskey(rawTagValueToTSIDs, v), forallkey(x, uint64, implies(haskey(rawTagValueToTSIDs[v], x), haskey(tr.allTSIDs, x)))))
+//@   loop 2:
+//@     invariant [frame] tr.allTSIDs == old(tr.allTSIDs) && tr.first == old(tr.first)
+//@     invariant [old-selection-kept] forallkey(x, uint64, implies(old(haskey(tr.allTSIDs, x)), haskey(tr.allTSIDs, x)))
+//@     invariant [added-are-matched] forallkey(x, uint64, implies(haskey(tr.allTSIDs, x), old(haskey(tr.allTSIDs, x)) || matchedVia(rawTagValueToTSIDs, x, ghostat(0, x, "bulkWit"))))
+//@     invariant [visited-values-fully-added] forallkey(v, string, implies(visited(1, v) && v != tagValue && haskey(rawTagValueToTSIDs, v), forallkey(x, uint64, implies(haskey(rawTagValueToTSIDs[v], x), haskey(tr.allTSIDs, x)))))
+//@     invariant [current-value] visited(1, tagValue) && haskey(rawTagValueToTSIDs, tagValue) && tsids == rawTagValueToTSIDs[tagValue] && forallkey(x, uint64, implies(visited(2, x), haskey(tr.allTSIDs, x)))
+//@   loop 3:
+//@     invariant [frame] tr.allTSIDs == old(tr.allTSIDs) && tr.first == old(tr.first)
+//@     invariant [dropped-are-unmatched] forallkey(x, uint64, implies(old(haskey(tr.allTSIDs, x)) && !haskey(tr.allTSIDs, x), forallkey(v, string, implies(haskey(rawTagValueToTSIDs, v), !haskey(rawTagValueToTSIDs[v], x)))))
+//@     invariant [selection-only-shrinks] forallkey(x, uint64, implies(haskey(tr.allTSIDs, x), old(haskey(tr.allTSIDs, x))))
+//@     invariant [visited-survivors-are-matched] forallkey(x, uint64, implies(visited(3, x) && haskey(tr.allTSIDs, x), matchedBy(rawTagValueToTSIDs, x)))
+//@   loop 4:
+//@     invariant [frame] tr.allTSIDs == old(tr.allTSIDs) && tr.first == old(tr.first)
+//@     invariant [selection-only-shrinks] forallkey(x, uint64, implies(haskey(tr.allTSIDs, x), old(haskey(tr.allTSIDs, x))))
+//@     invariant [visited-survivors-are-matched] forallkey(x, uint64, implies(visited(3, x) && x != ts && haskey(tr.allTSIDs, x), matchedBy(rawTagValueToTSIDs, x)))
+//@     invariant [current-key] visited(3, ts) && implies(shouldKeep, matchedBy(rawTagValueToTSIDs, ts))
+//@     invariant [dropped-are-unmatched] forallkey(x, uint64, implies(old(haskey(tr.allTSIDs, x)) && !haskey(tr.allTSIDs, x), forallkey(v, string, implies(haskey(rawTagValueToTSIDs, v), !haskey(rawTagValueToTSIDs[v], x)))))
+//@     invariant [no-match-among-the-scanned] implies(!shouldKeep, forallkey(v, string, implies(visited(4, v) && haskey(rawTagValueToTSIDs, v), !haskey(rawTagValueToTSIDs[v], ts))))
+//@   ensures [later-matcher-only-shrinks] implies(!old(tr.first) && result == nil, forallkey(x, uint64, implies(haskey(tr.allTSIDs, x), old(haskey(tr.allTSIDs, x)))))
+//@   ensures [survivors-are-matched-by-this-matcher] implies(!old(tr.first) && result == nil, forallkey(x, uint64, implies(haskey(tr.allTSIDs, x), matchedBy(rawTagValueToTSIDs, x))))
+//@   ensures [matched-survivors-stay] implies(!old(tr.first) && result == nil, forallkey(x, uint64, implies(old(haskey(tr.allTSIDs, x)) && matchedBy(rawTagValueToTSIDs, x), haskey(tr.allTSIDs, x))))
+//@   ensures [first-matcher-keeps-and-adds] implies(old(tr.first) && result == nil, forallkey(x, uint64, implies(old(haskey(tr.allTSIDs, x)) || matchedBy(rawTagValueToTSIDs, x), haskey(tr.allTSIDs, x))))
+//@   site mapupdate tr.allTSIDs[id] #1:
+//@     ghostset ghostat(0, id, "bulkWit") = tagValue
+//@   ensures [first-matcher-adds-only-matched] implies(old(tr.first) && result == nil, forallkey(x, uint64, implies(haskey(tr.allTSIDs, x), old(haskey(tr.allTSIDs, x)) || matchedVia(rawTagValueToTSIDs, x, ghostat(0, x, "bulkWit")))))
+//@ end
+
+// the tags-only variant keeps the same selection in tsidInfoMap
+//@ ghostdecl bulkWitTags string
+//@ func (*AllMatchedTSIDs).BulkAddTagsOnly
+//@   props C09
+//@   requires tr != nil
+//@   loop 1:
+//@     invariant [frame] tr.tsidInfoMap == old(tr.tsidInfoMap) && tr.first == old(tr.first)
+//@     invariant [old-selection-kept] forallkey(x, uint64, implies(old(haskey(tr.tsidInfoMap, x)), haskey(tr.tsidInfoMap, x)))
+//@     invariant [added-are-matched] forallkey(x, uint64, implies(haskey(tr.tsidInfoMap, x), old(haskey(tr.tsidInfoMap, x)) || matchedVia(rawTagValueToTSIDs, x, ghostat(0, x, "bulkWitTags"))))
+//@     invariant [visited-values-fully-added] forallkey(v, string, implies(visited(1, v) && haskey(rawTagValueToTSIDs, v), forallkey(x, uint64, implies(haskey(rawTagValueToTSIDs[v], x), haskey(tr.tsidInfoMap, x)))))
+//@   loop 2:
+//@     invariant [frame] tr.tsidInfoMap == old(tr.tsidInfoMap) && tr.first == old(tr.first)
+//@     invariant [old-selection-kept] forallkey(x, uint64, implies(old(haskey(tr.tsidInfoMap, x)), haskey(tr.tsidInfoMap, x)))
+//@     invariant [added-are-matched] forallkey(x, uint64, implies(haskey(tr.tsidInfoMap, x), old(haskey(tr.tsidInfoMap, x)) || matchedVia(rawTagValueToTSIDs, x, ghostat(0, x, "bulkWitTags"))))
+//@     invariant [visited-values-fully-added] forallkey(v, string, implies(visited(1, v) && v != tagValue && haskey(rawTagValueToTSIDs, v), forallkey(x, uint64, implies(haskey(rawTagValueToTSIDs[v], x), haskey(tr.tsidInfoMap, x)))))
+//@     invariant [current-value] visited(1, tagValue) && haskey(rawTagValueToTSIDs, tagValue) && tsids == rawTagValueToTSIDs[tagValue] && forallkey(x, uint64, implies(visited(2, x), haskey(tr.tsidInfoMap, x)))
+//@   loop 3:
+//@     invariant [frame] tr.tsidInfoMap == old(tr.tsidInfoMap) && tr.first == old(tr.first)
+//@     invariant [dropped-are-unmatched] forallkey(x, uint64, implies(old(haskey(tr.tsidInfoMap, x)) && !haskey(tr.tsidInfoMap, x), forallkey(v, string, implies(haskey(rawTagValueToTSIDs, v), !haskey(rawTagValueToTSIDs[v], x)))))
+//@     invariant [selection-only-shrinks] forallkey(x, uint64, implies(haskey(tr.tsidInfoMap, x), old(haskey(tr.tsidInfoMap, x))))
+//@     invariant [visited-survivors-are-matched] forallkey(x, uint64, implies(visited(3, x) && haskey(tr.tsidInfoMap, x), matchedBy(rawTagValueToTSIDs, x)))
+//@   loop 4:
+//@     invariant [frame] tr.tsidInfoMap == old(tr.tsidInfoMap) && tr.first == old(tr.first)
+//@     invariant [selection-only-shrinks] forallkey(x, uint64, implies(haskey(tr.tsidInfoMap, x), old(haskey(tr.tsidInfoMap, x))))
+//@     invariant [visited-survivors-are-matched] forallkey(x, uint64, implies(visited(3, x) && x != ts && haskey(tr.tsidInfoMap, x), matchedBy(rawTagValueToTSIDs, x)))
+//@     invariant [current-key] visited(3, ts) && implies(shouldKeep, matchedBy(rawTagValueToTSIDs, ts))
+//@     invariant [dropped-are-unmatched] forallkey(x, uint64, implies(old(haskey(tr.tsidInfoMap, x)) && !haskey(tr.tsidInfoMap, x), forallkey(v, string, implies(haskey(rawTagValueToTSIDs, v), !haskey(rawTagValueToTSIDs[v], x)))))
+//@     invariant [no-match-among-the-scanned] implies(!shouldKeep, forallkey(v, string, implies(visited(4, v) && haskey(rawTagValueToTSIDs, v), !haskey(rawTagValueToTSIDs[v], ts))))
+//@   ensures [later-matcher-only-shrinks] implies(!old(tr.first) && result == nil, forallkey(x, uint64, implies(haskey(tr.tsidInfoMap, x), old(haskey(tr.tsidInfoMap, x)))))
+//@   ensures [survivors-are-matched-by-this-matcher] implies(!old(tr.first) && result == nil, forallkey(x, uint64, implies(haskey(tr.tsidInfoMap, x), matchedBy(rawTagValueToTSIDs, x))))
+//@   ensures [matched-survivors-stay] implies(!old(tr.first) && result == nil, forallkey(x, uint64, implies(old(haskey(tr.tsidInfoMap, x)) && matchedBy(rawTagValueToTSIDs, x), haskey(tr.tsidInfoMap, x))))
+//@   ensures [first-matcher-keeps-and-adds] implies(old(tr.first) && result == nil, forallkey(x, uint64, implies(old(haskey(tr.tsidInfoMap, x)) || matchedBy(rawTagValueToTSIDs, x), haskey(tr.tsidInfoMap, x))))
+//@   site mapupdate tr.tsidInfoMap[id] #1:
+//@     ghostset ghostat(0, id, "bulkWitTags") = tagValue
+//@   ensures [first-matcher-adds-only-matched] implies(old(tr.first) && result == nil, forallkey(x, uint64, implies(haskey(tr.tsidInfoMap, x), old(haskey(tr.tsidInfoMap, x)) || matchedVia(rawTagValueToTSIDs, x, ghostat(0, x, "bulkWitTags")))))
 //@ end
